@@ -72,6 +72,21 @@ pub fn dec_f64(v: &Value) -> f64 {
     if let Some(i) = v.as_i64() {
         return i as f64;
     }
+    if let Some(c) = v.get("c").and_then(|t| t.as_str()) {
+        // value classes of the totality table (spec/Totality.tla)
+        let k = v.get("v").and_then(|x| x.as_i64()).unwrap_or(1) as f64;
+        return match c {
+            "num" => k,
+            "tenth" => k * 0.1,
+            "huge" => k * 1e200,
+            "tiny" => k * 1e-200,
+            "nan" => f64::NAN,
+            "inf" => f64::INFINITY,
+            "ninf" => f64::NEG_INFINITY,
+            "negzero" => -0.0,
+            c => panic!("class {}", c),
+        };
+    }
     if let Some(t) = v.get("tag").and_then(|t| t.as_str()) {
         match t {
             "nan" => return f64::NAN,
